@@ -26,6 +26,8 @@ structure FInst (F : Type) where
   st : Registry.St F
   hist : List (List F) := []
   last : Option (Option (List F)) := none
+  /-- the implementation's outputs so far, oldest first -/
+  outs : List (List F) := []
   /-- for a synthesis filter fed by an analysis filter: the id of that analysis instance -/
   partner : Option Nat := none
 
